@@ -189,4 +189,151 @@ example : segmentClip 0 10 0 1 true = .error .invalid := by decide +kernel
 example : segmentClip 0 10 1 (-1) true = .error .invalid := by decide +kernel
 example : holds 0 10 3 3 true (some [(0, 3), (3, 6), (6, 9), (9, 10)]) = true := by decide +kernel
 
+/-! ### review R-C14: closed form, loop bound, identifiers, recording -/
+
+/-- the number of segments in closed form, and the whole result in closed form: the lattice
+    windows `0 … count-1`, in order -/
+theorem C14_count {s e dur hop : Rat} {incl : Bool} {out : List (Rat × Rat)}
+    (h : segmentClip s e dur hop incl = .ok out) :
+    out.length = count s e dur hop incl ∧
+    out = (List.range (count s e dur hop incl)).map (window s e dur hop) := by
+  obtain ⟨hd, hh, hl⟩ := ok_inv h
+  have hb : e ≤ s + ((0 + bound s e hop : Nat) : Rat) * hop := by
+    simpa using bound_reaches s e hop hh
+  have hH := holdsFrom_loop s e dur hop incl (bound s e hop) 0 hb
+  rw [← hl] at hH
+  obtain ⟨ha, hn⟩ := holdsFrom_windows s e dur hop incl out 0 hH
+  have hlen : out.length = count s e dur hop incl := by
+    have h1 : ¬ (out.length < count s e dur hop incl) := by
+      intro hlt
+      have := (isWindow_iff_lt_count s e dur hop incl hd hh out.length).2 hlt
+      simp at hn; simp [hn] at this
+    have h2 : ¬ (count s e dur hop incl < out.length) := by
+      intro hlt
+      have := ha _ hlt
+      simp only [Nat.zero_add] at this
+      have := (isWindow_iff_lt_count s e dur hop incl hd hh _).1 this
+      omega
+    omega
+  refine ⟨hlen, ?_⟩
+  apply List.ext_getElem
+  · simp [hlen]
+  · intro i h1 h2
+    have := C14_lattice h i h1
+    simp only [List.getElem_map, List.getElem_range, window]
+    ext
+    · exact this.1
+    · exact this.2
+
+/-- any loop bound that is at least `ceil(duration / hop)` gives the same result -/
+theorem C14_bound_ge (bnd : Rat → Rat → Rat → Nat) (hb : ∀ s e hop, bound s e hop ≤ bnd s e hop)
+    (s e dur hop : Rat) (incl : Bool) :
+    segmentClipWith bnd s e dur hop incl = segmentClip s e dur hop incl := by
+  unfold segmentClip segmentClipWith
+  by_cases h1 : dur ≤ 0
+  · simp [h1]
+  · by_cases h2 : hop ≤ 0
+    · simp [h1, h2]
+    · simp only [h1, h2, if_false]
+      have hh : 0 < hop := Rat.not_le.1 h2
+      obtain ⟨k, hk⟩ := Nat.exists_eq_add_of_le (hb s e hop)
+      rw [hk, C14_bound_irrelevant s e dur hop incl hh k]
+
+/-- the name the identifier is computed from determines the parent identifier and both bounds:
+    for an injective number formatting without ':' and parent identifiers without ':' -/
+theorem C14_name_injective (fmt : Rat → String) (hinj : ∀ x y, fmt x = fmt y → x = y)
+    (hfmt : ∀ x, ':' ∉ (fmt x).toList) (p1 p2 : String)
+    (hp1 : ':' ∉ p1.toList) (hp2 : ':' ∉ p2.toList) (a b : Rat × Rat)
+    (h : segName fmt p1 a = segName fmt p2 b) : p1 = p2 ∧ a = b := by
+  unfold segName at h
+  have h' := congrArg String.toList h
+  simp only [String.toList_append, List.append_assoc] at h'
+  have h1 := List.append_cancel_left h'
+  have c : (":" : String).toList = [':'] := rfl
+  rw [c] at h1
+  simp only [List.cons_append, List.nil_append] at h1
+  obtain ⟨e1, h2⟩ := split_at _ _ _ _ hp1 hp2 h1
+  obtain ⟨e2, e3⟩ := split_at _ _ _ _ (hfmt a.1) (hfmt b.1) h2
+  refine ⟨String.toList_inj.1 e1, ?_⟩
+  ext
+  · exact hinj _ _ (String.toList_inj.1 e2)
+  · exact hinj _ _ (String.toList_inj.1 e3)
+
+/-- everything `segment_clip` puts into the yielded clips: every segment belongs to the parent's
+    recording, its bounds are those of the lattice windows, its name is `segName` of its own
+    bounds; the names of one call are pairwise distinct -/
+theorem C14_full {fmt : Rat → String} (hinj : ∀ x y, fmt x = fmt y → x = y)
+    (hfmt : ∀ x, ':' ∉ (fmt x).toList) {recording parent : String} (hp : ':' ∉ parent.toList)
+    {s e dur : Rat} {hop : Option Rat} {incl : Bool} {segs : List Seg}
+    (h : segmentClipFull fmt recording parent s e dur hop incl = .ok segs) :
+    ∃ out, segmentClip s e dur (hop.getD dur) incl = .ok out ∧
+      segs.map (fun g => (g.start, g.stop)) = out ∧
+      (∀ g ∈ segs, g.recording = recording ∧ g.name = segName fmt parent (g.start, g.stop)) ∧
+      (segs.map (·.name)).Nodup := by
+  unfold segmentClipFull segmentClipOpt at h
+  cases hr : segmentClip s e dur (hop.getD dur) incl with
+  | error err => rw [hr] at h; simp [Except.map] at h
+  | ok out =>
+    rw [hr] at h
+    simp only [Except.map, Except.ok.injEq] at h
+    subst h
+    refine ⟨out, rfl, ?_, ?_, ?_⟩
+    · simp [List.map_map, Function.comp_def]
+    · intro g hg
+      simp only [List.mem_map] at hg
+      obtain ⟨p, _, rfl⟩ := hg
+      exact ⟨rfl, rfl⟩
+    · have hk := (C14_ids_distinct hr parent).2
+      simp only [List.map_map, Function.comp_def]
+      unfold List.Nodup at hk ⊢
+      rw [List.pairwise_map] at hk ⊢
+      refine hk.imp ?_
+      intro p q hne heq
+      apply hne
+      have := (C14_name_injective fmt hinj hfmt parent parent hp hp p q heq).2
+      rw [this]
+
+
+/-- without `include_incomplete` and with `hop ≤ duration` the segments still tile the clip up to
+    a tail shorter than one hop: every `t` with `t + hop ≤ clip end` lies in a (complete) segment,
+    provided one window fits at all -/
+theorem C14_complete_tail {s e dur hop : Rat} {out : List (Rat × Rat)}
+    (h : segmentClip s e dur hop false = .ok out) (hle : hop ≤ dur) (hfit : dur ≤ e - s) (t : Rat)
+    (h1 : s ≤ t) (h2 : t + hop ≤ e) : ∃ p ∈ out, p.1 ≤ t ∧ t < p.2 ∧ p.2 - p.1 = dur := by
+  obtain ⟨hd, hh, _⟩ := ok_inv h
+  obtain ⟨a1, a2⟩ := floor_toNat_bounds (t - s) hop hh (by grind)
+  obtain ⟨b1, b2⟩ := floor_toNat_bounds (e - s - dur) hop hh (by grind)
+  generalize ((t - s) / hop).floor.toNat = i at a1 a2
+  generalize ((e - s - dur) / hop).floor.toNat = n at b1 b2
+  by_cases hin : i ≤ n
+  · refine ⟨(s + i * hop, s + i * hop + dur), ?_, ?_, ?_, ?_⟩
+    · rw [C14_complete_iff h]
+      refine ⟨i, rfl, rfl, ?_⟩
+      have := lattice_mono s hop hh hin
+      grind
+    · simp only; grind
+    · simp only; grind
+    · simp only; grind
+  · refine ⟨(s + n * hop, s + n * hop + dur), ?_, ?_, ?_, ?_⟩
+    · rw [C14_complete_iff h]
+      exact ⟨n, rfl, rfl, by grind⟩
+    · have := lattice_mono s hop hh (Nat.le_of_lt (Nat.lt_of_not_le hin))
+      simp only; grind
+    · simp only; grind
+    · simp only; grind
+
+example : segmentClip 0 10 3 2 false = .ok [(0, 3), (2, 5), (4, 7), (6, 9)] ∧ (3:Rat) ≤ 10 - 0 ∧ (2:Rat) ≤ 3 := by
+  decide +kernel
+
+-- non-vacuity of the review theorems
+example : count 0 10 3 3 true = 4 ∧ count 0 10 1 4 false = 3 ∧ count 0 10 3 2 false = 4 ∧
+    count 0 2 3 1 false = 0 ∧ count 0 2 3 1 true = 2 ∧ count 5 5 1 1 true = 0 := by decide +kernel
+example : segmentClip 0 10 1 4 false = .ok ((List.range 3).map (window 0 10 1 4)) := by decide +kernel
+example : segmentClipWith (fun _ _ _ => 7) 0 10 3 3 true = segmentClip 0 10 3 3 true := by decide +kernel
+example : segName fmtU "p" (1/2, 2) = "segment_clip:p:a/cc:aa/c" := by decide +kernel
+example : (segmentClipFull fmtU "r" "p" 0 2 1 none false).toOption =
+    some [⟨"r", 0, 1, "segment_clip:p:/c:a/c"⟩, ⟨"r", 1, 2, "segment_clip:p:a/c:aa/c"⟩] := by decide +kernel
+/-- the hypotheses of `C14_name_injective` / `C14_full` are satisfiable -/
+example : (∀ x y, fmtU x = fmtU y → x = y) ∧ (∀ x, ':' ∉ (fmtU x).toList) := ⟨fmtU_inj, fmtU_noColon⟩
+
 end SE.Proofs.C14
